@@ -123,6 +123,84 @@ def _more():
 _more()
 
 
+def _iters():
+    B = {True: "true", False: "false"}
+    for kind, qmax, tmax in (("pq", 4, 6), ("dq", 3, 5)):
+        ty = KINDS[kind]["ty"]
+        ordp = "C01" if kind == "pq" else "C02"
+        for n in range(0, tmax + 1):
+            t = QUICK if n <= qmax else THOROUGH
+            tq = QUICK if n <= qmax - 1 else THOROUGH
+            m = dict(kind=kind, n=n)
+            # iter_mut, prefix consumed, dropped: C08 (+ order restored: C01/C02)
+            for via in (False, True):
+                v = "ref" if via else "dir"
+                tt = t if not via else (tq if n in (1, 2) else THOROUGH)
+                inst(f"itermut_{kind}_prefix_n{n}_{v}_drop",
+                     f"iters::iter_mut_prefix::<{ty}, {n}>(Pre::Inv, Tables::Any, step::ALL, false, {B[via]})",
+                     kind, n, {"C08": tt, ordp: tt}, "STEP",
+                     meta=dict(op="iter_mut", end="drop", via=v, pre="inv", group="all", **m),
+                     covers_required=(n > 1))
+            # leaked guard: order unspecified, safety not (C04, C10)
+            inst(f"itermut_{kind}_prefix_n{n}_dir_forget",
+                 f"iters::iter_mut_prefix::<{ty}, {n}>(Pre::CrashSafe, Tables::Any, step::STRUCT, true, false)",
+                 kind, n, {"C04": tq, "C10": tq}, "STEP",
+                 meta=dict(op="iter_mut", end="forget", via="dir", pre="cs", group="st", **m),
+                 covers_required=(n > 1))
+            inst(f"itermut_{kind}_prefix_n{n}_dir_drop_cs",
+                 f"iters::iter_mut_prefix::<{ty}, {n}>(Pre::CrashSafe, Tables::Any, step::STRUCT, false, false)",
+                 kind, n, {"C04": tq, "C10": tq}, "STEP",
+                 meta=dict(op="iter_mut", end="drop", via="dir", pre="cs", group="st", **m),
+                 covers_required=(n > 1))
+            # protocol: C09
+            for via in (False, True):
+                v = "ref" if via else "dir"
+                tt = t if not via else (tq if n in (1, 2) else THOROUGH)
+                inst(f"itermut_{kind}_proto_n{n}_{v}",
+                     f"iters::iter_mut_proto::<{ty}, {n}>({B[via]})",
+                     kind, n, {"C09": tt}, "ITER",
+                     meta=dict(iter="iter_mut", via=v, **m), covers_required=(n > 0 and kind == "dq"))
+            # C13
+            for via in (False, True):
+                v = "ref" if via else "dir"
+                tt = t if not via else (tq if n in (1, 2) else THOROUGH)
+                inst(f"iter_{kind}_proto_n{n}_{v}", f"iters::iter{'_ref' if via else ''}_proto::<{ty}, {n}>()",
+                     kind, n, {"C13": tt, "C03": tt}, "ITER", meta=dict(iter="iter", via=v, **m),
+                     covers_required=(n > 1))
+            inst(f"intoiter_{kind}_proto_n{n}", f"iters::into_iter_proto::<{ty}, {n}>()",
+                 kind, n, {"C13": t, "C03": tq}, "ITER", meta=dict(iter="into_iter", **m),
+                 covers_required=(n > 1))
+            inst(f"drain_{kind}_proto_n{n}", f"iters::drain_proto::<{ty}, {n}>(true)",
+                 kind, n, {"C13": t}, "ITER", meta=dict(iter="drain", exact_size_checked=True, **m),
+                 covers_required=(n > 1))
+            inst(f"drain_{kind}_yield_n{n}", f"iters::drain_proto::<{ty}, {n}>(false)",
+                 kind, n, {"C16": t}, "ITER", meta=dict(iter="drain", exact_size_checked=False, **m),
+                 covers_required=(n > 1))
+            inst(f"intovec_{kind}_n{n}", f"iters::into_vec::<{ty}, {n}>()",
+                 kind, n, {"C03": tq}, "ITER", meta=dict(iter="into_vec", **m))
+            # C16
+            for forget in (False, True):
+                e = "forget" if forget else "drop"
+                inst(f"drain_{kind}_n{n}_{e}", f"iters::drain::<{ty}, {n}>(Pre::CrashSafe, {B[forget]})",
+                     kind, max(n, 2), {"C16": t, "C04": tq, **({"C10": tq} if forget else {})}, "STEP",
+                     meta=dict(op="drain", end=e, pre="cs", **m), covers_required=(n > 0))
+        # C06: n chained pops; the min-max heap is the expensive half
+        smax_q, smax_t = (4, 6) if kind == "pq" else (3, 5)
+        for n in range(0, smax_t + 1):
+            t = QUICK if n <= smax_q else THOROUGH
+            m = dict(kind=kind, n=n)
+            inst(f"sorted_{kind}_iter_n{n}", f"iters::sorted_iter::<{ty}, {n}>()",
+                 kind, n, {"C06": t, "C13": t}, "ITER", meta=dict(iter="into_sorted_iter", **m))
+            inst(f"sorted_{kind}_vec_desc_n{n}", f"iters::sorted_vec::<{ty}, {n}>(false)",
+                 kind, n, {"C06": t}, "ITER", meta=dict(op="into_sorted_vec/desc", **m))
+            if kind == "dq":
+                inst(f"sorted_{kind}_vec_asc_n{n}", f"iters::sorted_vec::<{ty}, {n}>(true)",
+                     kind, n, {"C06": t}, "ITER", meta=dict(op="into_ascending_sorted_vec", **m))
+
+
+_iters()
+
+
 def select(prop, tier):
     out = []
     for i in INSTANCES:
